@@ -65,6 +65,19 @@ def field_of(e, cls, field):
     return False
 
 
+def _is_empty_bucket_init(e) -> bool:
+    """`d[k] = []` / `d.setdefault(k, [])`: creates the (empty) per-key bucket of a dict-of-lists relation"""
+    src = e.src
+    if e.kind == 'item-set' and isinstance(src, ast.Assign) and isinstance(src.value, (ast.List, ast.Dict)) \
+            and not getattr(src.value, 'elts', getattr(src.value, 'keys', None)):
+        return True
+    if e.kind == 'item-set' and isinstance(src, ast.Call) and isinstance(src.func, ast.Attribute) \
+            and src.func.attr == 'setdefault' and len(src.args) == 2 and isinstance(src.args[1], ast.List) \
+            and not src.args[1].elts:
+        return True
+    return False
+
+
 def _prim_args(R, e):
     """(value id of the object owning the field, value id of the element added/removed)"""
     src = e.src
@@ -75,13 +88,62 @@ def _prim_args(R, e):
         recv = recv.value
     owner = recv.value if isinstance(recv, ast.Attribute) else None
     ov = R.value_id(owner, e.node) if owner is not None else None
-    av = R.value_id(src.args[0], e.node) if len(src.args) == 1 else None
+    av = None
+    if len(src.args) == 1:
+        a = src.args[0]
+        # (object, annotation) pairs of dict-of-lists relations: the related object is element 0
+        if isinstance(a, ast.Name):
+            defs = R.cfg.reaching(e.node, a.id)
+            if len(defs) == 1 and defs[0].kind == 'stmt' and isinstance(defs[0].ast, ast.Assign) \
+                    and isinstance(defs[0].ast.value, ast.Tuple) and defs[0].ast.value.elts:
+                return ov, R.value_id(defs[0].ast.value.elts[0], defs[0])
+        if isinstance(a, ast.Tuple) and a.elts:
+            a = a.elts[0]
+        av = R.value_id(a, e.node)
     return ov, av
+
+
+def _callers(ctx):
+    """callee qname -> list of (caller Func, call ast, CFG node)"""
+    out = {}
+    for g in ctx.prog.all_funcs():
+        for call, res, node in ctx.an.of(g).calls:
+            if res[0] == 'func':
+                out.setdefault(res[1].qname, []).append((g, call, node))
+    return out
+
+
+def _detached_params(ctx, f, callers):
+    """parameters of helper f that every caller binds to an object it removes from a primary container
+    (so that f runs in a DETACH context of its caller)."""
+    sites = callers.get(f.qname, [])
+    if not sites:
+        return set()
+    result = None
+    for (g, call, node) in sites:
+        Rg = ctx.R(g)
+        removed = set()
+        for e in ctx.an.of(g).effects:
+            if not e.chain and e.kind == 'remove' and e.path.steps and (e.ptype, e.path.steps[-1]) in PRIMARIES \
+                    and isinstance(e.src, ast.Call) and len(e.src.args) == 1:
+                v = Rg.value_id(e.src.args[0], e.node)
+                if v is not None:
+                    removed.add(v)
+        amap = ctx.an.arg_map(call, f, call.func.value if isinstance(call.func, ast.Attribute) else None)
+        here = set()
+        for p, a in amap.items():
+            if a is None or isinstance(a, str):
+                continue
+            if Rg.value_id(a, node) in removed:
+                here.add(p)
+        result = here if result is None else (result & here)
+    return result or set()
 
 
 def run(ctx) -> list[Inst]:
     prog, an = ctx.prog, ctx.an
     insts: list[Inst] = []
+    callers = _callers(ctx)
     for f in prog.all_funcs():
         facts = an.of(f)
         if not facts.effects:
@@ -100,6 +162,9 @@ def run(ctx) -> list[Inst]:
                     v = R.value_id(e.src.args[0], e.node)
                     if v is not None:
                         detached_vids.add(v)
+        # helper extracted from a removing function: its parameter is the object being detached
+        for p in _detached_params(ctx, f, callers):
+            detached_vids.add(('param', p))
         # ---------------------------------------------------------------- PAIR P1-P4
         for (pn, c1, f1, c2, f2, props) in PAIRS:
             for (ca, fa, cb, fb) in ((c1, f1, c2, f2), (c2, f2, c1, f1)):
@@ -108,6 +173,8 @@ def run(ctx) -> list[Inst]:
                         continue
                     c = dclass(e)
                     if c is None:
+                        continue
+                    if _is_empty_bucket_init(e):
                         continue
                     ov, av = _prim_args(R, e)
                     construct = f'{pn}: {c} on {ca}.{fa} mirrored on {cb}.{fb}'
@@ -119,7 +186,7 @@ def run(ctx) -> list[Inst]:
                         continue
                     mirrors = [d for d in facts.effects
                                if field_of(d, cb, fb) and dclass(d) == c and d.node is not None
-                               and (not d.chain or d.cmust) and d is not e]
+                               and (not d.chain or d.cmust) and d is not e and not _is_empty_bucket_init(d)]
                     if f.short in DEFERRED_TO_R7:
                         insts.append(Inst(RULE, f.short, construct, 'info',
                                           msg='copy relinking: decided by R7c', file=rel,
